@@ -551,10 +551,12 @@ class SchemaGen:
         r.shuffle(names)
         k = r.random()
         bases = [n for n, b in self.m["ctypes"].items() if self.visible(f, b["file"]) and not self.uses_all(b)
-                 and not b["mixed"] and n not in self.blocked]
+                 and n not in self.blocked]
         if self.has("ext") and allow_base and bases and k < 0.35:
             bn = r.choice(bases)
             c["base"] = bn
+            if self.is_mixed(bn):
+                c["mixed"] = True          # an extension of a mixed type is mixed
             for x in self.type_names(["c", bn]):
                 if x in names:
                     names.remove(x)
@@ -589,7 +591,8 @@ class SchemaGen:
                 d = {"name": rn, "type": ["c", name], "nillable": False, "form": None, "default": None, "fixed": None,
                      "global": False, "abstract": False, "subst": None, "file": f}
                 p["items"].append({"k": "el", "decl": d, "min": 0, "max": r.choice([1, None])})
-            if self.has("wild") and r.random() < 0.4 and p["k"] == "seq" and not c["mixed"]:
+            if self.has("wild") and r.random() < 0.4 and p["k"] == "seq" and not c["mixed"] and not (
+                    c["base"] and self.type_has_wild(c["base"])):
                 ns = r.choice(["##other", "##other", "##any", "##local", "##targetNamespace", FOREIGN[0],
                                FOREIGN[0] + " " + FOREIGN[1], "##other"])
                 p["items"].append({"k": "any", "ns": ns, "pc": r.choice(["lax", "skip"]),
@@ -604,6 +607,16 @@ class SchemaGen:
         if self.has("anyattr") and r.random() < 0.25:
             c["anyattr"] = r.choice(["##other", "##any", FOREIGN[0]])
         return c
+
+    def is_mixed(self, name):
+        c = self.m["ctypes"][name]
+        return c["mixed"] or (c["base"] is not None and self.is_mixed(c["base"]))
+
+    def type_has_wild(self, name):
+        c = self.m["ctypes"][name]
+        p = c["particle"]
+        return bool(p and p["k"] == "seq" and p["items"] and p["items"][-1]["k"] == "any") or (
+            c["base"] is not None and self.type_has_wild(c["base"]))
 
     def simple_content(self, name):
         c = self.m["ctypes"][name]
@@ -725,7 +738,7 @@ class SchemaGen:
                 self.blocked = {x for x in m["ctypes"] if self.mentions(x, n)} | {n}
                 d = self.gen_cdef(min(c["file"], self.pick_file()), dn, allow_base=False)
                 self.blocked = set()
-                if self.uses_all(d) or d["mixed"] != c["mixed"] or d["simple"] is not None or self.simple_content(n):
+                if self.uses_all(d) or d["mixed"] != self.is_mixed(n) or d["simple"] is not None or self.simple_content(n):
                     c["abstract"] = False
                     continue
                 d["base"] = n
